@@ -41,13 +41,16 @@ def run_case(case):
     size = list(case['size'])
     L = dwtu.flen(w)
     f32 = case['dtype'] == 'f32'
-    per_axis = [dwtu.level_lengths(n, L, mode, J) for n in size]
-    in_d1a = any(dwtu.d1_analysis(ns, L, mode) for ns, _ in per_axis)
-    in_d1s = any(dwtu.d1_synthesis(ks, L, mode) for _, ks in per_axis)
-    may_raise = any(dwtu.reflect_may_raise(ns, L, mode) for ns, _ in per_axis)
+    Ls = c01.axis_lens(case)
+    per_axis = [dwtu.level_lengths(n, L_, mode, J) for n, L_ in zip(size, Ls)]
+    in_d1a = any(dwtu.d1_analysis(ns, L_, mode) for (ns, _), L_ in zip(per_axis, Ls))
+    in_d1s = any(dwtu.d1_synthesis(ks, L_, mode) for (_, ks), L_ in zip(per_axis, Ls))
+    may_raise = any(dwtu.reflect_may_raise(ns, L_, mode) for (ns, _), L_ in zip(per_axis, Ls))
+    L = max(Ls)
     r.label('dim%d' % dim, mode, 'f32' if f32 else 'f64',
             'odd' if any(n % 2 for n in size) else None,
-            'short<L' if any(n < L for n in size) else None,
+            'short<L' if any(n < L_ for n, L_ in zip(size, Ls)) else None,
+            'separate_row_col_wavelets' if case.get('wave_row') else None,
             'J>=2' if J >= 2 else None, 'L>=20' if L >= 20 else None,
             'approx_PR(dmey)' if w == 'dmey' else None,
             'in_D1_predicate' if (in_d1a or in_d1s) else None)
